@@ -232,6 +232,127 @@ func runC36(c *Ctx) {
 
 	r2 := c.Rule("R2", "sibling goroutines do not share a written struct field without a common lock", 2)
 	siblingRule(c, li, r2)
+
+	r4 := c.Rule("R4", "mutex-sibling containers: in a struct that carries its own sync.Mutex / sync.RWMutex, every access to a sibling field of map type outside the constructors happens with that mutex held (exclusively for writes, at least shared for reads, len() included)", 2)
+	mutexSiblingRule(c, li, r4)
+}
+
+// mutexSiblingRule (C36.R4).
+func mutexSiblingRule(c *Ctx, li *lockInfo, r4 string) {
+	w := c.W
+	nStructs := 0
+	for _, pk := range []string{"cache", "common", "fs", "sop"} {
+		p := w.Pkg(pk)
+		scope := p.Types.Scope()
+		names := scope.Names()
+		sort.Strings(names)
+		for _, name := range names {
+			tn, ok := scope.Lookup(name).(*types.TypeName)
+			if !ok {
+				continue
+			}
+			st, ok := tn.Type().Underlying().(*types.Struct)
+			if !ok {
+				continue
+			}
+			var mu *types.Var
+			nMu := 0
+			for i := 0; i < st.NumFields(); i++ {
+				ts := st.Field(i).Type().String()
+				if ts == "sync.Mutex" || ts == "sync.RWMutex" || ts == "*sync.Mutex" || ts == "*sync.RWMutex" {
+					mu = st.Field(i)
+					nMu++
+				}
+			}
+			if nMu != 1 {
+				continue
+			}
+			for i := 0; i < st.NumFields(); i++ {
+				fld := st.Field(i)
+				if _, isMap := fld.Type().Underlying().(*types.Map); !isMap {
+					continue
+				}
+				nStructs++
+				var offs []string
+				var pos token.Pos
+				nAcc := 0
+				for _, f := range w.declaredFuncs(pk) {
+					if isTestHelperFile(w, f) {
+						continue
+					}
+					root := rootOf(f)
+					nm := ""
+					if root.Decl != nil {
+						nm = root.Decl.Name.Name
+					}
+					if strings.HasPrefix(nm, "New") || strings.HasPrefix(nm, "new") || nm == "init" {
+						continue // constructor: the value is not shared yet
+					}
+					for _, fn := range append([]*Func{f}, w.allLits(f)...) {
+						g := w.G(fn)
+						info := fn.Pkg.TypesInfo
+						for _, n := range g.Nodes {
+							if n.Ast == nil {
+								continue
+							}
+							write := false
+							touched := false
+							ast.Inspect(n.Ast, func(x ast.Node) bool {
+								switch y := x.(type) {
+								case *ast.FuncLit:
+									return false
+								case *ast.AssignStmt:
+									for _, l := range y.Lhs {
+										e := l
+										if ix, ok := ast.Unparen(e).(*ast.IndexExpr); ok {
+											e = ix.X
+										}
+										if fieldOfSelector(info, e) == fld {
+											write = true
+										}
+									}
+								case *ast.CallExpr:
+									if id, ok := ast.Unparen(y.Fun).(*ast.Ident); ok && (id.Name == "delete" || id.Name == "clear") && len(y.Args) >= 1 && fieldOfSelector(info, y.Args[0]) == fld {
+										write = true
+									}
+								case *ast.SelectorExpr:
+									if fieldOfSelector(info, y) == fld {
+										touched = true
+									}
+								}
+								return true
+							})
+							if !touched {
+								continue
+							}
+							nAcc++
+							held := li.heldAtNode(fn, n, 3)
+							need := 1
+							if write {
+								need = 2
+							}
+							if held[mu] < need {
+								kind := "read"
+								if write {
+									kind = "write"
+								}
+								offs = append(offs, fmt.Sprintf("%s in %s at %s", kind, shortKey(root.Key), w.PosStr(n.Ast.Pos())))
+								if pos == token.NoPos {
+									pos = n.Ast.Pos()
+								}
+							}
+						}
+					}
+				}
+				if pos == token.NoPos {
+					pos = fld.Pos()
+				}
+				c.Check(len(offs) == 0, r4, fmt.Sprintf("%s.%s.%s is accessed under %s", pk, name, fld.Name(), mu.Name()), pos, fmt.Sprintf("%d access(es), all under the struct's mutex", nAcc),
+					fmt.Sprintf("map field %s.%s is accessed without the struct's mutex %s held (%s): a concurrent writer holding the mutex races with it (a map read, even len(), concurrent with a map write is a data race)", name, fld.Name(), mu.Name(), strings.Join(offs, "; ")), nil)
+			}
+		}
+	}
+	c.Check(nStructs >= 2, r4, "mutex-carrying structs with map fields inventoried", token.NoPos, fmt.Sprintf("%d map fields", nStructs), fmt.Sprintf("only %d", nStructs), nil)
 }
 
 // fieldEffects: struct fields read / written by f and its static callees (depth-limited), with the locks
